@@ -23,6 +23,7 @@ site: http://bugseng.com/products/ppl/ . */
 
 #include "ppl-config.h"
 #include "Watchdog_defs.hh"
+#include "verif_hooks.hh"
 
 #if PPL_HAVE_DECL_SETITIMER && PPL_HAVE_DECL_SIGACTION
 
@@ -127,7 +128,9 @@ PPL::Watchdog::set_timer(const Implementation::Watchdog::Time& time) {
   if (time.seconds() == 0 && time.microseconds() == 0) {
     throw std::runtime_error("PPL internal error");
   }
+  PPL_VERIF_POINT("set_timer.0");
   last_time_requested = time;
+  PPL_VERIF_POINT("set_timer.1");
   signal_once.it_value.tv_sec = time.seconds();
   signal_once.it_value.tv_usec = time.microseconds();
   my_setitimer(THE_TIMER, &signal_once, nullptr);
@@ -142,17 +145,22 @@ PPL::Watchdog::stop_timer() {
 
 void
 PPL::Watchdog::handle_timeout(int) {
+  PPL_VERIF_POINT("handle_timeout.0");
   if (in_critical_section) {
     reschedule();
   }
   else {
     time_so_far += last_time_requested;
+    PPL_VERIF_POINT("handle_timeout.1");
     if (!pending.empty()) {
       WD_Pending_List::iterator i = pending.begin();
       do {
         i->handler().act();
+        PPL_VERIF_POINT("handle_timeout.2");
         i->expired_flag() = true;
+        PPL_VERIF_POINT("handle_timeout.3");
         i = pending.erase(i);
+        PPL_VERIF_POINT("handle_timeout.4");
       } while (i != pending.end() && i->deadline() <= time_so_far);
       if (pending.empty()) {
         alarm_clock_running = false;
@@ -160,6 +168,7 @@ PPL::Watchdog::handle_timeout(int) {
       else {
         set_timer((*pending.begin()).deadline() - time_so_far);
       }
+      PPL_VERIF_POINT("handle_timeout.5");
     }
     else {
       alarm_clock_running = false;
@@ -180,27 +189,36 @@ PPL::Watchdog::new_watchdog_event(long csecs,
   assert(csecs > 0);
   WD_Pending_List::iterator position;
   const Time deadline(csecs);
+  PPL_VERIF_POINT("new_event.0");
   if (!alarm_clock_running) {
     position = pending.insert(deadline, handler, expired_flag);
+    PPL_VERIF_POINT("new_event.fresh.1");
     time_so_far = Time(0);
+    PPL_VERIF_POINT("new_event.fresh.2");
     set_timer(deadline);
+    PPL_VERIF_POINT("new_event.fresh.3");
     alarm_clock_running = true;
   }
   else {
     Time time_to_shoot;
     get_timer(time_to_shoot);
+    PPL_VERIF_POINT("new_event.run.1");
     Time elapsed_time(last_time_requested);
     elapsed_time -= time_to_shoot;
     Time current_time(time_so_far);
     current_time += elapsed_time;
     Time real_deadline(deadline);
     real_deadline += current_time;
+    PPL_VERIF_POINT("new_event.run.2");
     position = pending.insert(real_deadline, handler, expired_flag);
+    PPL_VERIF_POINT("new_event.run.3");
     if (deadline < time_to_shoot) {
       time_so_far = current_time;
+      PPL_VERIF_POINT("new_event.run.4");
       set_timer(deadline);
     }
   }
+  PPL_VERIF_POINT("new_event.9");
   return position;
 }
 
@@ -208,29 +226,37 @@ void
 PPL::Watchdog::remove_watchdog_event(WD_Pending_List::iterator position) {
   using namespace Implementation::Watchdog;
   assert(!pending.empty());
+  PPL_VERIF_POINT("remove_event.0");
   if (position == pending.begin()) {
     WD_Pending_List::iterator next = position;
     ++next;
+    PPL_VERIF_POINT("remove_event.1");
     if (next != pending.end()) {
       const Time first_deadline(position->deadline());
       Time next_deadline(next->deadline());
       if (first_deadline != next_deadline) {
         Time time_to_shoot;
         get_timer(time_to_shoot);
+        PPL_VERIF_POINT("remove_event.2");
         Time elapsed_time(last_time_requested);
         elapsed_time -= time_to_shoot;
         time_so_far += elapsed_time;
+        PPL_VERIF_POINT("remove_event.3");
         next_deadline -= first_deadline;
         time_to_shoot += next_deadline;
         set_timer(time_to_shoot);
+        PPL_VERIF_POINT("remove_event.4");
       }
     }
     else {
       stop_timer();
+      PPL_VERIF_POINT("remove_event.5");
       alarm_clock_running = false;
     }
   }
+  PPL_VERIF_POINT("remove_event.6");
   pending.erase(position);
+  PPL_VERIF_POINT("remove_event.7");
 }
 
 PPL::Implementation::Watchdog::Time PPL::Watchdog::reschedule_time(1);
